@@ -18,5 +18,5 @@ def run(ctx):
                         "A-py: CrossHair's models of int/list/str are faithful"]
     ctx.outside += ["more than 3 lengths per query (the views are folds over the list; no induction claimed)", "directory arguments of check (see C12)"]
     T = 60 if ctx.quick() else 240
-    jobs = [Job("c02.py", f, None, T, 20, tag="all-L") for f in ("h_views", "h_format", "h_multi", "h_check1", "h_check")]
+    jobs = [Job("c02.py", f, None, T, 20, tag="all-L") for f in ("h_views", "h_format", "h_multi", "h_rescan", "h_check1", "h_check")]
     ctx.run_xh(jobs)
